@@ -162,9 +162,13 @@ class Bits:
         if offset is not None:
             raise bitstring.CreationError(f"offset cannot be used when initialising with '{k}'.")
         try:
-            Dtype(k, length).set_fn(self, v)
+            d = Dtype(k, length)
+            d.set_fn(self, v)
         except ValueError as e:
             raise bitstring.CreationError(e)
+        if d.bitlength is not None and len(self) != d.bitlength:
+            raise bitstring.CreationError(f"Can't initialise with value of length {len(self)} bits, "
+                                          f"as '{k}' was given a length of {d.bitlength} bits.")
 
     def __getattr__(self, attribute: str) -> Any:
         # Support for arbitrary attributes like u16 or f64.
